@@ -1,7 +1,6 @@
 package main
 
 import (
-	"bytes"
 	"math/big"
 
 	"github.com/oasisprotocol/curve25519-voi/curve/scalar"
@@ -51,7 +50,7 @@ func recC05(c *ctx) {
 	c.w.Emit(vt.Ev{"op": "uint64", "cfg": c.cfg, "a": vt.B([]byte{1, 0, 0, 0, 0, 0, 0, 0}), "out": vt.B(sbytes(scalar.One()))})
 	for i := 0; i < 8; i++ {
 		ent := c.r.Bytes(64)
-		s, err := scalar.New().SetRandom(bytes.NewReader(ent))
+		s, err := scalar.New().SetRandom(c.r.Entropy(ent))
 		e := vt.Ev{"op": "wide", "cfg": c.cfg, "a": vt.B(ent), "ok": err == nil}
 		if err == nil {
 			e["out"] = vt.B(sbytes(s))
